@@ -10,13 +10,15 @@
 From Coq Require Import String.
 From PGV Require Import Base.Bytes Base.GoStr Base.Utf8 Base.MiniGo.
 From PGV Require Import Extracted.SourceConst Model.RuleText.
+(* also IsExported (valid/common.go): string comparison, s[i] (a byte, with its run-time bound), <= >=, return e *)
 Open Scope Z_scope.
 
 Inductive pv := PS (s : str) | PZ (z : Z) | PB (b : bool) | PBad.
 Definition penv := string -> pv.
 Definition pset (x : string) (v : pv) (e : penv) : penv := fun y => if String.eqb y x then v else e y.
 Definition pempty : penv :=
-  fun y => if String.eqb y "ExplainZh" then PS ExplainZh else if String.eqb y "ExplainEn" then PS ExplainEn else PBad.
+  fun y => if String.eqb y "ExplainZh" then PS ExplainZh else if String.eqb y "ExplainEn" then PS ExplainEn
+           else PBad.
 
 Definition index1 (s sub : str) : pv :=
   match sub with
@@ -35,7 +37,7 @@ Definition slice_of (s : str) (lo hi : option Z) : pv :=
 
 Fixpoint peval (e : penv) (x : expr) {struct x} : pv :=
   match x with
-  | EId n => e n
+  | EId n => if String.eqb n "true" then PB true else if String.eqb n "false" then PB false else e n
   | ELit z => PZ z
   | EStr s => PS s
   | EUn op a => if String.eqb op "-" then match peval e a with PZ z => PZ (- z) | _ => PBad end else PBad
@@ -48,7 +50,14 @@ Fixpoint peval (e : penv) (x : expr) {struct x} : pv :=
       match peval e a with PS s => PB (has_zh s) | _ => PBad end
     else PBad
   | ECall (EId f) [a] =>
-    if String.eqb f "len" then match peval e a with PS s => PZ (Z.of_nat (List.length s)) | _ => PBad end else PBad
+    if String.eqb f "len" then
+      match peval e a with PS s => PZ (Z.of_nat (List.length s)) | _ => PBad end
+    else PBad
+  | EIndex a i =>
+    match peval e a, peval e i with
+    | PS s, PZ z => if 0 <=? z then match nth_error s (Z.to_nat z) with Some c => PZ (Z.of_N c) | None => PBad end else PBad
+    | _, _ => PBad
+    end
   | ESlice a lo hi =>
     match peval e a with
     | PS s =>
@@ -67,15 +76,22 @@ Fixpoint peval (e : penv) (x : expr) {struct x} : pv :=
     | PZ x, PZ y =>
       if String.eqb op "==" then PB (x =? y) else if String.eqb op "!=" then PB (negb (x =? y))
       else if String.eqb op "<" then PB (x <? y) else if String.eqb op ">" then PB (y <? x)
+      else if String.eqb op "<=" then PB (x <=? y) else if String.eqb op ">=" then PB (y <=? x)
       else if String.eqb op "+" then PZ (x + y) else PBad
-    | PS x, PS y => if String.eqb op "+" then PS (x ++ y) else PBad
+    | PS x, PS y => if String.eqb op "+" then PS (x ++ y)
+                    else if String.eqb op "==" then PB (str_eqb x y) else if String.eqb op "!=" then PB (negb (str_eqb x y))
+                    else PBad
     | PB x, PB y => if String.eqb op "&&" then PB (x && y) else if String.eqb op "||" then PB (x || y) else PBad
+    (* && and || evaluate their right operand only when needed: a panic there (PBad) does not happen when the
+       left operand decides; expressions have no other effect *)
+    | PB x, PBad => if String.eqb op "&&" then (if x then PBad else PB false)
+                    else if String.eqb op "||" then (if x then PB true else PBad) else PBad
     | _, _ => PBad
     end
   | _ => PBad
   end.
 
-Inductive pflow := PNext (e : penv) | PRet (e : penv) | PStuck.
+Inductive pflow := PNext (e : penv) | PRet (e : penv) (v : option pv) | PStuck.
 
 Fixpoint pexec (s : stmt) (e : penv) {struct s} : pflow :=
   let run := fix run (l : list stmt) (e : penv) {struct l} : pflow :=
@@ -84,7 +100,8 @@ Fixpoint pexec (s : stmt) (e : penv) {struct s} : pflow :=
     | x :: r => match pexec x e with PNext e1 => run r e1 | other => other end
     end in
   match s with
-  | SAssign _ [EId x] [rhs] => match peval e rhs with PBad => PStuck | v => PNext (pset x v e) end
+  | SAssign _ [EId x] [rhs] =>
+    match peval e rhs with PBad => PStuck | v => PNext (pset x v e) end
   | SIf init c th el =>
     match run init e with
     | PNext e1 =>
@@ -95,7 +112,8 @@ Fixpoint pexec (s : stmt) (e : penv) {struct s} : pflow :=
       end
     | other => other
     end
-  | SReturn [] => PRet e
+  | SReturn [] => PRet e None
+  | SReturn [x] => match peval e x with PBad => PStuck | v => PRet e (Some v) end
   | _ => PStuck
   end.
 
@@ -109,10 +127,20 @@ Fixpoint pexec_list (l : list stmt) (e : penv) : pflow :=
 Definition run_parse (f : fn) (s : str) : option (str * str * str) :=
   let e0 := pset "validName" (PS s) (pset "key" (PS []) (pset "value" (PS []) (pset "cusMsg" (PS []) pempty))) in
   match pexec_list (fn_body f) e0 with
-  | PNext e | PRet e =>
+  | PNext e | PRet e None =>
     match e "key"%string, e "value"%string, e "cusMsg"%string with
     | PS k, PS v, PS m => Some (k, v, m)
     | _, _, _ => None
     end
-  | PStuck => None
+  | _ => None
+  end.
+
+(* IsExported(fieldName) *)
+Definition run_bool (f : fn) (arg : str) : option bool :=
+  match fn_params f with
+  | [(p, _)] => match pexec_list (fn_body f) (pset p (PS arg) pempty) with
+                | PRet _ (Some (PB b)) => Some b
+                | _ => None
+                end
+  | _ => None
   end.
